@@ -1,7 +1,11 @@
 (** C12 - Subscriptions and Dispatch deliver exactly the selected part of the event stream.
-    Statements only; proofs in Proofs/Subs.v.  The generated copies of [subscribes]
+    Statements only; proofs in Proofs/Subs.v (the rule, Dispatch) and Proofs/SubsSites.v
+    (at EVERY emission site of the model - creation, removal, exchange, Relations.Set and
+    batch operations - a listener restricted to types S and components C receives exactly
+    the sub-list of the events an all-subscribing listener receives that the documented
+    rule selects, with content and order unchanged).  The generated copies of [subscribes]
     (ecs/util.go and listener/util.go) are related to each other in Pure/SubsGen.v. *)
-From Arche Require Import Model.Base Model.World Model.Ops Proofs.Subs Pure.SubsGen.
+From Arche Require Import Model.Base Model.World Model.Ops Proofs.Subs Pure.SubsGen Proofs.SubsSites.
 
 (** The subscription rule: an event is of interest iff some subscribed type occurred and,
     under a component restriction, a relation type touched a relation component in it, a
@@ -38,6 +42,30 @@ Theorem C12_subscription_bits : forall b0 b1 b2 b3 b4 b5,
   Arche.Gen.Mask256.subscription b0 b1 b2 b3 b4 b5 = subscription b0 b1 b2 b3 b4 b5.
 Proof. exact subscription_gen_model. Qed.
 
+
+(** Every emission site: restricted listener = filter of the all-subscribing listener. *)
+Theorem C12_site_exchange : forall w e x add rem l,
+  ev_exchange (with_listener w (LCallback l)) e x add rem =
+  filter (fun ev => selects l ev = true) (ev_exchange (with_listener w SubsSites.lall) e x add rem).
+Proof. exact exchange_site. Qed.
+Theorem C12_site_create : forall w e mask ids newrel l,
+  ev_create (with_listener w (LCallback l)) e mask ids newrel =
+  filter (fun ev => selects l ev = true) (ev_create (with_listener w SubsSites.lall) e mask ids newrel).
+Proof. exact create_site. Qed.
+Theorem C12_site_remove : forall w e nd target l,
+  ev_remove (with_listener w (LCallback l)) e nd target =
+  filter (fun ev => selects l ev = true) (ev_remove (with_listener w SubsSites.lall) e nd target).
+Proof. exact remove_site. Qed.
+Theorem C12_site_target : forall w e rid oldtarget l,
+  ev_target (with_listener w (LCallback l)) e rid oldtarget =
+  filter (fun ev => selects l ev = true) (ev_target (with_listener w SubsSites.lall) e rid oldtarget).
+Proof. exact target_site. Qed.
+Theorem C12_site_batch : forall w segs added_ids removed_ids l,
+  ev_batch (with_listener w (LCallback l)) segs added_ids removed_ids =
+  filter (fun ev => selects l ev = true) (ev_batch (with_listener w SubsSites.lall) segs added_ids removed_ids).
+Proof. exact batch_site. Qed.
+
 Print Assumptions C12_dispatch.
+Print Assumptions C12_site_batch.
 Print Assumptions C12_rule.
 Print Assumptions C12_copies_equal_256.
